@@ -11,6 +11,7 @@ import (
 	"go/token"
 	"go/types"
 	"math/big"
+	"os"
 	"sort"
 	"strings"
 
@@ -60,6 +61,10 @@ type Obligation struct {
 	Goal   string   `json:"-"`
 	// ExpectFail marks vacuity canaries: the obligation must be refuted.
 	ExpectFail bool `json:"expect_fail,omitempty"`
+	// ReachOf >= 0 marks the reachability probe of return ReachOf-1... (0 = not a probe): refuting it is
+	// not a failure by itself; the number of unreachable returns is compared with the allowance
+	ReachProbe bool `json:"reach_probe,omitempty"`
+	Allow      int  `json:"-"`
 	retHeap    Heap
 	retVals    []Val
 }
@@ -103,14 +108,14 @@ type modelConst struct {
 }
 
 type frame struct {
-	fn     *ssa.Function
-	vals   map[ssa.Value]Val
-	prefix string
-	depth  int
-	vars   map[string][]varDef
-	iters  map[*ssa.Range]iterInfo
-	stack  []string
-	errCalls []pendingErr
+	fn        *ssa.Function
+	vals      map[ssa.Value]Val
+	prefix    string
+	depth     int
+	vars      map[string][]varDef
+	iters     map[*ssa.Range]iterInfo
+	stack     []string
+	errCalls  []pendingErr
 	loopEntry map[*ssa.BasicBlock]Heap
 	loopExit  map[*ssa.BasicBlock]Heap
 	loopOrds  map[*ssa.BasicBlock]int
@@ -148,7 +153,7 @@ type retInfo struct {
 // pendingErr: error result of a call made on the way to a return
 type pendingErr struct {
 	term, reach, what string
-	block            *ssa.BasicBlock
+	block             *ssa.BasicBlock
 }
 
 func (vc *VC) errorf(format string, a ...interface{}) {
@@ -276,10 +281,65 @@ func (vc *VC) oblige(kind, name string, props []string, pos string, reach, goal 
 	if goal == "true" {
 		return
 	}
+	if os.Getenv("GOVC_SPLIT") != "" && strings.HasPrefix(goal, "(and ") {
+		// debugging aid: one obligation per top-level conjunct
+		for i, cj := range flattenAnd(goal) {
+			short := cj
+			if len(short) > 160 {
+				short = short[:160] + "…"
+			}
+			vc.oblige(kind, fmt.Sprintf("%s [conjunct %d: %s]", name, i, short), props, pos, reach, cj)
+		}
+		return
+	}
 	o := &Obligation{ID: len(vc.obls), Func: vc.fnKey, Kind: kind, Name: name, Props: props, Pos: pos,
 		Prefix: len(vc.lines), Reach: reach, Goal: goal}
 	vc.obls = append(vc.obls, o)
 	vc.assume(reach, goal)
+}
+
+// flattenAnd splits the s-expression (and a b ...) into its conjuncts, recursively.
+func flattenAnd(t string) []string {
+	if !strings.HasPrefix(t, "(and ") || !strings.HasSuffix(t, ")") {
+		return []string{t}
+	}
+	body := t[5 : len(t)-1]
+	var parts []string
+	depth, start, inStr, inBar := 0, 0, false, false
+	for i := 0; i < len(body); i++ {
+		c := body[i]
+		switch {
+		case inStr:
+			if c == '"' {
+				inStr = false
+			}
+		case inBar:
+			if c == '|' {
+				inBar = false
+			}
+		case c == '"':
+			inStr = true
+		case c == '|':
+			inBar = true
+		case c == '(':
+			depth++
+		case c == ')':
+			depth--
+		case c == ' ' && depth == 0:
+			if i > start {
+				parts = append(parts, body[start:i])
+			}
+			start = i + 1
+		}
+	}
+	if start < len(body) {
+		parts = append(parts, body[start:])
+	}
+	var out []string
+	for _, p := range parts {
+		out = append(out, flattenAnd(p)...)
+	}
+	return out
 }
 
 // ---------------------------------------------------------------- heap
@@ -896,4 +956,3 @@ func (vc *VC) mergePhi(fr *frame, phi *ssa.Phi, incIdx []int, conds []string) {
 	}
 	fr.vals[phi] = vc.mkVal(n, t)
 }
-
